@@ -155,7 +155,13 @@ class Spec:
             extra = [q for q in n["quals"] if q not in KNOWN]
             v = self.vars.get(n["name"])
             if extra:
-                return v.get(extra[0]) if isinstance(v, dict) else None
+                if not isinstance(v, dict):
+                    return None
+                got = v.get(extra[0])
+                if got is None and extra[0] in ("True", "False"):
+                    # the counts of count(x) for a condition x are kept under the truth values themselves
+                    got = v.get(extra[0] == "True")
+                return got
             return v
         if k == "eq":
             return self.vote(n)
@@ -309,6 +315,17 @@ class Spec:
                 raise OutOfClass("subtotal on a non-dict variable")
             d[cat] = (d.get(cat) or 0) + num
             return d[cat]
+        if name == "count" and len(args) == 1:
+            # docs/functions/count.md: count(x) counts the lines seen per value of x (an equality gives True / False)
+            extra = [x for x in q if x not in KNOWN]
+            if not extra or args[0]["k"] not in ("eq", "fn"):
+                raise OutOfClass("count(x) without a name")
+            tracked = self.value(args[0])
+            d = self.vars.setdefault(extra[0], {})
+            if not isinstance(d, dict):
+                raise OutOfClass("count(x) on a non-dict variable")
+            d[tracked] = (d.get(tracked) or 0) + 1
+            return d[tracked]
         if name == "counter":
             extra = [x for x in q if x not in KNOWN]
             if not extra:
@@ -419,7 +436,7 @@ class Spec:
         name, args, q = n["name"], n["args"], n["quals"]
         if "onmatch" in q or "onchange" in q or "once" in q:
             raise OutOfClass("look-ahead qualifier")
-        if len(args) == 1 and args[0]["k"] == "eq" and args[0]["op"] != ",":
+        if len(args) == 1 and args[0]["k"] == "eq" and args[0]["op"] != "," and name != "count":
             raise OutOfClass("function of an equality")
         if name in ("yes", "true"):
             return True
@@ -547,6 +564,9 @@ class Spec:
             self.value(n)
             return True
         if name == "count" and not args:
+            return None
+        if name == "count" and len(args) == 1:
+            self.value(n)
             return None
         if name == "put":
             if len(args) != 2:
